@@ -400,10 +400,13 @@ Example C07_ex_dihedral :
 Proof. exact ex_dihedral. Qed.
 Example C07_ex_gyration : NoDup [0%nat; 1%nat] /\ gyr_value Rops ex_pos [0%nat; 1%nat] <> 0.
 Proof. exact ex_gyration. Qed.
-Example C07_ex_rmsd : forall c, c = None \/ c = Some (0, 0, 0) ->
-  NoDup [0%nat; 1%nat] /\ length ex_refs = length [0%nat; 1%nat] /\ rmsd_value Rops ex_pos [0%nat; 1%nat] ex_refs c <> 0 /\
-  (forall rc, c = Some rc -> vsum Rops ex_refs = vscale Rops (ofnat Rops (length [0%nat; 1%nat])) rc).
-Proof. exact ex_rmsd. Qed.
+Example C07_ex_rmsd :
+  NoDup [0%nat; 1%nat] /\ length ex_refs = length [0%nat; 1%nat] /\ rmsd_value Rops ex_pos [0%nat; 1%nat] ex_refs None <> 0.
+Proof. exact ((fun H => conj (proj1 H) (conj (proj1 (proj2 H)) (proj1 (proj2 (proj2 H))))) (ex_rmsd None (or_introl eq_refl))). Qed.
+Example C07_ex_rmsd_centered :
+  let g := rmsd_grads Rops ex_pos [0%nat; 1%nat] (rmsd_best Rops ex_pos [0%nat; 1%nat] ex_refs [] (Some (0, 0, 0))) (Some (0, 0, 0)) in
+  norm2_sum Rops (vadd_list Rops g (fit_grads Rops (length [0%nat; 1%nat]) (Some (0, 0, 0)) g)) <> 0.
+Proof. exact ex_rmsd_centered. Qed.
 Example C07_ex_eigenvector :
   NoDup [0%nat; 1%nat] /\ length ex_evec = length [0%nat; 1%nat] /\ norm2_sum Rops (eig_vec Rops ex_evec) <> 0.
 Proof. exact ex_eigenvector. Qed.
